@@ -10,6 +10,7 @@ open Proto
   model's own output passes `Struct ∧ Exact`)
 * `c10valid L= A= D= B= RL=<labels> RA=<attr ids> RE=<i-j,…>` – the specification decided on the
   implementation's output: `T`, `F:<failed Struct clauses>` or `X:<only Exact fails>`
+  (`err:input-not-in-domain` if G is outside the quantifier: a harness bug)
 * `c10sep n= D= B= X= Y= Z=` – `<mSeparated G>/<mSeparated (convMG G)>/<mSeparated (G without
   bidirected edges)>` (or `err:cyclic`)
 * `c10sepall n= D= B= RN=<k> RE=<i-j,…>` – second sentence for *all* disjoint X,Y,Z of original
@@ -47,11 +48,22 @@ def handleConv : Handler := fun a =>
   let R := convS G
   fmtDG R ++ " chk=" ++ fmtBool (decide (Struct G R) && decide (Exact G R))
 
+/-- the input is inside the quantifier of C10 (hypotheses of `C10_full`, `sepPreserved_of_valid`):
+    distinct node names, endpoints are nodes, no self loops, one bidirected edge per pair, acyclic
+    directed layer -/
+def inDomain (G : LG String) : Bool :=
+  decide (G.names.Nodup) && (({ nodes := G.nodes, edges := G.dir } : DG String).hasCycle == false) &&
+  decide (∀ e ∈ G.dir, e.1 ∈ G.names ∧ e.2 ∈ G.names ∧ e.1 ≠ e.2) &&
+  decide (∀ e ∈ G.bi, e.1 ∈ G.names ∧ e.2 ∈ G.names ∧ e.1 ≠ e.2) &&
+  decide (G.bi.Pairwise fun e e' => ¬ ((e.1 = e'.1 ∧ e.2 = e'.2) ∨ (e.1 = e'.2 ∧ e.2 = e'.1)))
+
 def handleValid : Handler := fun a =>
   let G := mkLG a
   let R := mkDG a
+  if !inDomain G then "err:input-not-in-domain" else
   let cl : List (String × Bool) :=
-    [("dag", R.hasCycle == false), ("nodes-kept", decide (NodesKept G R)),
+    [("closed", decide (∀ e ∈ R.edges, e.1 ∈ R.names ∧ e.2 ∈ R.names)),
+     ("dag", R.hasCycle == false), ("nodes-kept", decide (NodesKept G R)),
      ("dir-kept", decide (DirKept G R)), ("latent-per-bi", decide (LatentPerBi G R))]
   let failed := (cl.filter (!·.2)).map (·.1)
   if failed ≠ [] then "F:" ++ "+".intercalate failed
